@@ -281,6 +281,9 @@ func (t *c19Task) run(op c19Op, sh *c19Shared) (res string) {
 		m1.Set("p", "changed")
 		m1.Delete("q")
 		b2, _ := m2.MarshalJSON()
+		if want := `{"p":"1","q":"2","r":"3"}`; string(b2) != want || fmt.Sprint(items) != "[{p 1 false} {q 2 false} {r 3 false}]" {
+			return fmt.Sprintf("SHARED-STATE: two maps built from one list: after Set/Delete on the first, the second reads %s (want %s) and the caller's list reads %v", b2, want, items)
+		}
 		return fmt.Sprintf("sh.unmarshal %s | %s %v", hashBytes(b), b2, items)
 	case "sh.get":
 		k := fmt.Sprintf("s%d", op.arg%8)
@@ -675,6 +678,9 @@ func runC19(c *engine.Ctx) {
 			got := t.results[j]
 			if strings.HasPrefix(got, "PANIC:") {
 				c.Fail("C19.panic", t.ops[j].kind, "task %d op %d (%s) panicked: %s\n%s", i, j, t.ops[j].kind, got, desc)
+			}
+			if strings.HasPrefix(got, "SHARED-STATE:") {
+				c.Fail("C19.hidden-shared-state", t.ops[j].kind, "task %d op %d (%s): %s\n%s", i, j, t.ops[j].kind, got, desc)
 			}
 			if strings.HasPrefix(got, "MUTATED-BY-OBSERVER:") {
 				c.Fail("C19.observer-mutates", t.ops[j].kind, "task %d op %d (%s): %s\n%s", i, j, t.ops[j].kind, got, desc)
